@@ -156,3 +156,49 @@ def run(facts, body, params, call_model=None, depth=0, budget=None):
             else:
                 break  # unreachable / resume
     return outs
+
+
+def eval_at(facts, body, start_bb, env0, stop_bb, operand, budget=2000):
+    """values `operand` can have when control reaches block stop_bb, starting at start_bb with the locals env0"""
+    outs = set()
+    work = [(start_bb, dict(env0))]
+    while work and budget > 0:
+        b, env = work.pop()
+        steps = 0
+        while budget > 0 and steps < 200:
+            budget -= 1
+            steps += 1
+            if b == stop_bb:
+                for s in body.stmts(b):
+                    if s["k"] == "assign" and not s["pl"].get("p"):
+                        env[s["pl"]["l"]] = ev_rv(s["rv"], env, facts)
+                outs.add(ev_op(operand, env))
+                break
+            for s in body.stmts(b):
+                if s["k"] == "assign" and not s["pl"].get("p"):
+                    env[s["pl"]["l"]] = ev_rv(s["rv"], env, facts)
+            t = body.term(b)
+            k = t["k"]
+            if k == "goto":
+                b = t["t"]
+            elif k == "switch":
+                d = _int(ev_op(t["d"], env))
+                if d is U:
+                    for tb in {tb for (_v, tb) in t["vals"]} | {t["else"]}:
+                        if not body.is_cleanup(tb):
+                            work.append((tb, dict(env)))
+                    break
+                nxt = None
+                for (val, tb) in t["vals"]:
+                    if int(val) == d:
+                        nxt = tb
+                b = nxt if nxt is not None else t["else"]
+            elif k in ("call", "drop", "assert"):
+                if k == "call" and not t["dest"].get("p"):
+                    env[t["dest"]["l"]] = U
+                if t.get("t") is None:
+                    break
+                b = t["t"]
+            else:
+                break
+    return outs
